@@ -27,6 +27,15 @@ def plan(tier, seed, prop_no):
         if rng.random() < 0.08:
             spec["atol_boundary"] = int(rng.choice([20, 30]))
             spec = matprob.normalise(spec, tier == "thorough")
+        elif rng.random() < 0.03:
+            # a large symbolic block (6..12 states, dense coupling): the inner sums of the symbolic matrix products have
+            # many terms (the library replaces SymPy's summation routine for such products)
+            big = [[6], [7], [6, 2], [10], [11], [6, 6], [12, 1], [3, 7]][int(rng.integers(8))]
+            spec.update(vtype="sympy", sizes=big, design="indices", container="dict", complex=False, symbolic=False,
+                        sel=str(rng.choice(["fd_all", "fd_all", "none", "mask"])), atol_boundary=0, max_total=0)
+            spec = matprob.normalise(spec, tier == "thorough")
+            spec["max_total"] = min(spec["max_total"], 2)
+            spec["big_symbolic_block"] = True
         spec["shuffle"] = int(rng.integers(0, 2**31))
         specs.append(spec)
     # exact (sympy) cases are the slow ones: spread them evenly
@@ -48,6 +57,7 @@ def run(spec, oracle):
         "tiny_units_with_atol": int(bool(p.notes.get("units"))),
         "user_atol_option": int(bool(p.notes.get("user_atol"))),
         "levels_exactly_atol_apart": int(bool(p.notes.get("atol_boundary"))),
+        "big_symbolic_block": int(bool(spec.get("big_symbolic_block"))),
         "degenerate_kept_pairs": int(any(p.E[i] == p.E[j] for i in range(p.N) for j in range(i))),
     }
     nontrivial = oracles.perturbation_couples_eliminated(p) and spec["max_total"] >= 2
@@ -61,7 +71,7 @@ def finalize_common(c, tier, evaluations, distinct):
     need = 40 if tier == "quick" else 300
     if distinct < need:
         reasons.append(f"only {distinct} distinct non-trivial cases (< {need})")
-    for k in ("vtype_dense", "vtype_sparse", "vtype_sympy", "sel_mask", "sel_fd_some", "sel_none", "blocks_3", "params_2", "sylvester_dense", "sylvester_sparse", "sylvester_sympy", "tiny_units_with_atol", "user_atol_option", "levels_exactly_atol_apart"):
+    for k in ("vtype_dense", "vtype_sparse", "vtype_sympy", "sel_mask", "sel_fd_some", "sel_none", "blocks_3", "params_2", "sylvester_dense", "sylvester_sparse", "sylvester_sympy", "tiny_units_with_atol", "user_atol_option", "levels_exactly_atol_apart", "big_symbolic_block"):
         if c.get(k, 0) < 3:
             reasons.append(f"class/monitor {k} observed only {c.get(k, 0)} times")
     return reasons
